@@ -142,7 +142,7 @@ namespace via
           std::lock_guard<std::shared_mutex> guard(mutex_);
 
           auto iter(find_position_for(key));
-          if(iter != data_.end())
+          if((iter != data_.end()) && (iter->first == key))
             data_.erase(iter);
         }
       };
